@@ -554,6 +554,25 @@ theorem forwarding_fields_sent_on_every_attempt (N : Net Addr Prefix) (cfg : Cfg
   · exact ⟨dropNil_sent s1, dropNil_sent s2, fun _ => dropNil_sent s3⟩
   · exact ⟨dropNil_sent s1, dropNil_sent s2, fun h => absurd rfl h⟩
 
+/-! ## templates' httpInclude: the virtual sub-request -/
+
+/- FULL statement: for an outer peer that is not a trusted proxy, what the included sub-request is attributed
+   does not depend on the outer request's headers.  It FAILS on the tree as it is:
+   `include_attribution_full_fails` (Witness.lean) — the virtual request has the dummy remote address
+   127.0.0.1:10000 and the outer peer's headers; when loopback is trusted they are honoured. -/
+
+/-- **partial.** Outside the explicit exclusion "the dummy address of the virtual request is a trusted proxy"
+    (decidable: `serverTrusts` of the connection with `virtualRemote`), the included sub-request's client
+    address and trusted flag do not depend on the outer request's headers. -/
+theorem include_attribution_partial (N : Net Addr Prefix) (cfg : Cfg Prefix) (c : Conn)
+    (w w' : List (Bytes × Bytes))
+    (hx : serverTrusts N cfg { c with remoteAddr := virtualRemote } = false) :
+    (serveInclude N cfg c w).clientIP = (serveInclude N cfg c w').clientIP ∧
+    (serveInclude N cfg c w).trusted = (serveInclude N cfg c w').trusted := by
+  unfold serveInclude
+  rw [untrusted_client_ip N cfg _ w hx, untrusted_client_ip N cfg _ w' hx, trusted_flag_iff, trusted_flag_iff]
+  exact ⟨rfl, rfl⟩
+
 /-! ## the FastCGI transport (php_fastcgi): what the application is told about the client -/
 
 /-- REMOTE_ADDR / REMOTE_PORT are cut out of the socket address — no header is an input -/
@@ -1014,6 +1033,8 @@ example : (serveFcgi toyNet exCfg exUntrusted ((b!"X_Forwarded_Proto", b!"http")
 example : (optionsFor (some b!":8443") [b!":80"] ⟨some [b!"10.0.0.0/8"], true, some [b!"X-Real-IP"], [], phClientIP⟩).srvRanges = none ∧
     optionsFor (some b!":8443") [b!":8443"] ⟨some [b!"10.0.0.0/8"], true, none, [], phClientIP⟩ =
       ⟨some [b!"10.0.0.0/8"], true, none, [], phClientIP⟩ := by decide
+-- include_attribution_partial: with 10.0.0.0/8 trusted the dummy address 127.0.0.1:10000 is not a trusted proxy
+example : serverTrusts toyNetL { witInc with srvTrusted := some [b!"10."] } ⟨virtualRemote, false, b!"a", false⟩ = false := by decide
 -- elements_are_per_value
 example : elements [b!"a,b", b!"", b!"c"] = [b!"a", b!"b", b!"", b!"c"] := by decide
 -- trimSpace_never_runs_out_of_fuel: NBSP, EM SPACE and ASCII blanks around an address
